@@ -874,7 +874,6 @@ def _isolated_once(fn):
             if asan.active():
                 asan.begin()
             res = fn()
-            gc.collect()
             if asan.active():
                 res['asan'] = asan.errors()
             with os.fdopen(wr, 'wb') as f:
@@ -938,7 +937,11 @@ def check_iop(c, op, fn, ma0, mb, site='iop'):
     except R.Refused as e:
         mres, mexc = None, e
     c.n += 1
-    if zero:
+    from mc import asan
+    if zero and not asan.active():
+        # plain build: a use-after-free / double free would take the worker down (or corrupt its heap), so these
+        # run in a forked child.  ASan build: the sanitizer reports and survives them (recover mode, quarantine),
+        # and forking a sanitized process is very slow, so they run in-process and the engine collects the reports.
         how, obs = isolated(lambda: _observe_iop(fn, ma0, mb))
         if how == 'died':
             c.v(key + 'crash', 'interpreter died (%s) during/after the in-place operation' % obs, sub)
